@@ -107,7 +107,36 @@ func Continuation(horizon int) func(c *sim.Cluster) *common.Violation {
 			}
 		}
 		if len(leaders) != 1 {
-			return viol("C15", fmt.Sprintf("leaders-at-horizon:%d", len(leaders)), "after %d fault-free intervals %d nodes are in leader state %v", horizon, len(leaders), leaders)
+			sig := fmt.Sprintf("leaders-at-horizon:%d", len(leaders))
+			detail := ""
+			if len(leaders) == 0 {
+				// root cause discriminator: a voter restarted over a log whose
+				// newest configuration entry is the still uncommitted removal of
+				// itself; it no longer campaigns, and the others need its vote
+				var maxCommit uint64
+				for i := range c.Nodes {
+					if v, ok := c.View(i); ok && v.CommitIndex > maxCommit {
+						maxCommit = v.CommitIndex
+					}
+				}
+				for i, n := range c.Nodes {
+					v, ok := c.View(i)
+					if !ok || n.Inc == 0 || !v.HasConfiguration || v.Configuration.IsVoter[n.ID] || v.Configuration.Index <= maxCommit {
+						continue
+					}
+					for j, o := range c.Nodes {
+						if w, ok := c.View(j); ok && j != i && w.HasConfiguration && w.Configuration.IsVoter[n.ID] && w.Configuration.Index < v.Configuration.Index {
+							sig += ":restarted-on-its-own-uncommitted-removal"
+							detail = fmt.Sprintf("; n%d restarted with the uncommitted configuration @%d that removes it and does not campaign, n%d (configuration @%d) still needs its vote and is refused for its shorter log", i, v.Configuration.Index, o.Idx, w.Configuration.Index)
+							break
+						}
+					}
+					if detail != "" {
+						break
+					}
+				}
+			}
+			return viol("C15", sig, "after %d fault-free intervals %d nodes are in leader state %v%s", horizon, len(leaders), leaders, detail)
 		}
 		L := leaders[0]
 		if fresh == nil || !fresh.Resolved || fresh.Err != nil {
